@@ -11,6 +11,7 @@ Open Scope Z_scope.
 Theorem C18_serial_truthful : forall scan_last i l,
   raised (serial_abort scan_last i l) = true /\ status_complete (serial_abort scan_last i l) = false.
 Proof. exact serial_abort_truthful. Qed.
+Print Assumptions C18_serial_truthful.
 
 (** the same for breadth-first runs of any group size *)
 Theorem C18_byline_truthful : forall scan_last n i l,
@@ -23,6 +24,7 @@ Theorem C18_aborting_member : forall scan_last i l,
   error_lines (serial_abort scan_last i l) i = [l] /\ saved (serial_abort scan_last i l) i = Some (scan_last i l) /\
   started (serial_abort scan_last i l) i = true.
 Proof. exact serial_abort_member. Qed.
+Print Assumptions C18_aborting_member.
 
 (** members that finished earlier keep complete results *)
 Theorem C18_earlier_members : forall scan_last i l j, (j < i)%nat -> saved (serial_abort scan_last i l) j = Some true.
@@ -34,10 +36,12 @@ Print Assumptions C18_earlier_members.
 Theorem C18_completed_partial : forall scan_last i l,
   saved (serial_abort scan_last i l) i = Some false <-> scan_last i l = false.
 Proof. exact abort_completed_flag. Qed.
+Print Assumptions C18_completed_partial.
 
 Theorem C18_abort_on_last_line_refuted :
   saved (serial_abort (fun _ l => l =? 3) 0 3) 0 = Some true.
 Proof. reflexivity. Qed.
+Print Assumptions C18_abort_on_last_line_refuted.
 
 Example C18_nonvacuous :
   let t := serial_abort (fun _ l => l =? 5) 2 3 in
